@@ -107,7 +107,11 @@ macro_rules! field_impl {
             }
 
             pub fn set_bit(&mut self, bit: usize, to: bool) {
-                self.0.set_bit(bit, to);
+                // `self.0` holds the Montgomery form: edit the canonical value and
+                // convert back (which also reduces a result that reached the modulus).
+                let mut a = U256::from(*self);
+                a.set_bit(bit, to);
+                *self = Self::new_mul_factor(a);
             }
 
             #[inline]
